@@ -271,3 +271,101 @@ func zzC18(nSettings int, small bool) {
 	}
 	nondet.Reach("C18.tie-in-creation-time", hasRef[0] && hasRef[1] && sels[0].kind == "exists" && sels[1].kind == "exists" && nNodes >= 1 && labels[0] != "" && status(0).Status != status(1).Status)
 }
+
+// ZZ_C18_selectorChangesBetweenPasses: "once each has been reconciled against the same cluster state at
+// most one is valid" also for a long-lived controller process that has seen an earlier state: two
+// settings with a reference are reconciled (both orders), then setting s1 gets another node selector —
+// edited in place (generation incremented) or deleted and created again under the same name (same
+// generation, later creation time) — and both are reconciled again by the same process.  The verdicts
+// are those of the selectors as they are now: at most one valid setting per node, a loser reports a
+// conflict, a setting overlapping nothing is valid.
+func ZZ_C18_selectorChangesBetweenPasses() {
+	c := fakeapi.New()
+	labels := []string{"a", "b"}
+	for i, l := range labels {
+		c.Nodes = append(c.Nodes, &corev1.Node{ObjectMeta: metav1.ObjectMeta{Name: "node" + strconv.Itoa(i), Labels: map[string]string{"k": l}}})
+	}
+	pick := func(label string) zzSel {
+		switch nondet.String(label, "labels-a", "labels-b", "notin-a", "exists") {
+		case "labels-a":
+			return zzSel{"labels-a"}
+		case "labels-b":
+			return zzSel{"labels-b"}
+		case "notin-a":
+			return zzSel{"notin-a"}
+		}
+		return zzSel{"exists"}
+	}
+	sels := []zzSel{pick("s0.selector"), pick("s1.selector.before")}
+	for j := 0; j < 2; j++ {
+		c.Settings = append(c.Settings, &datadoghqv1alpha1.ExtendedDaemonsetSetting{
+			ObjectMeta: metav1.ObjectMeta{Name: "s" + strconv.Itoa(j), Namespace: "ns", Generation: 1, CreationTimestamp: metav1.NewTime(nondet.Base().Add(time.Duration(j) * time.Minute))},
+			Spec:       datadoghqv1alpha1.ExtendedDaemonsetSettingSpec{Reference: &autoscalingv1.CrossVersionObjectReference{Kind: "ExtendedDaemonset", Name: "foo"}, NodeSelector: sels[j].selector()},
+		})
+	}
+	r := &Reconciler{client: c, scheme: c.Scheme(), log: logr.Logger{}, recorder: &fakeapi.Recorder{}}
+	pass := func() {
+		order := []int{0, 1, 0, 1}
+		if nondet.Bool("s1First") {
+			order = []int{1, 0, 1, 0}
+		}
+		for _, j := range order {
+			_, err := r.Reconcile(context.TODO(), reconcile.Request{NamespacedName: types.NamespacedName{Namespace: "ns", Name: "s" + strconv.Itoa(j)}})
+			nondet.Assert("C18.passes.noerror", err == nil)
+		}
+	}
+	pass()
+	// s1 changes
+	sels[1] = pick("s1.selector.after")
+	for _, s := range c.Settings {
+		if s.Namespace == "ns" && s.Name == "s1" {
+			s.Spec.NodeSelector = sels[1].selector()
+			if nondet.Bool("s1.recreated") {
+				s.CreationTimestamp = metav1.NewTime(nondet.Base().Add(10 * time.Minute))
+				s.UID = "uid-s1-again"
+				s.Status = datadoghqv1alpha1.ExtendedDaemonsetSettingStatus{}
+			} else {
+				s.Generation = 2
+			}
+		}
+	}
+	pass()
+	status := func(j int) datadoghqv1alpha1.ExtendedDaemonsetSettingStatus {
+		for _, s := range c.Settings {
+			if s.Namespace == "ns" && s.Name == "s"+strconv.Itoa(j) {
+				return s.Status
+			}
+		}
+		return datadoghqv1alpha1.ExtendedDaemonsetSettingStatus{}
+	}
+	overlap := false
+	for _, l := range labels {
+		valid := 0
+		both := true
+		for j := 0; j < 2; j++ {
+			if sels[j].matches(l) {
+				if status(j).Status == datadoghqv1alpha1.ExtendedDaemonsetSettingStatusValid {
+					valid++
+				}
+			} else {
+				both = false
+			}
+		}
+		if both {
+			overlap = true
+		}
+		nondet.Assert("C18.passes.at-most-one-valid-per-node", valid <= 1)
+	}
+	for j := 0; j < 2; j++ {
+		st := status(j)
+		if !overlap {
+			nondet.Assert("C18.passes.wellformed-alone-valid", st.Status == datadoghqv1alpha1.ExtendedDaemonsetSettingStatusValid && st.Error == "")
+		} else if status(1-j).Status == datadoghqv1alpha1.ExtendedDaemonsetSettingStatusValid {
+			nondet.Assert("C18.passes.loser-reports-conflict", st.Status == datadoghqv1alpha1.ExtendedDaemonsetSettingStatusError && strings.Contains(st.Error, "conflict"))
+		}
+	}
+	nondet.Observe("s0", string(status(0).Status))
+	nondet.Observe("s1", string(status(1).Status))
+	nondet.Reach("C18.passes.overlap-appears", overlap && status(0).Status != status(1).Status)
+	nondet.Reach("C18.passes.overlap-disappears", !overlap)
+}
